@@ -38,7 +38,7 @@ func run(rt *rapid.T) {
 	pool := wmkit.GenKeyPool(rt, gen.Uniform(rt, 2, 12, "npool"))
 	unique := wmkit.UniqueValues(rt)
 	counter := 0
-	reweighed := false
+	reweighed, readded := false, false
 	steps := gen.Uniform(rt, 5, 40, "steps")
 	collapsedBelow := false // a commit with a small collapse level happened
 	touchedAfterCollapse, reloaded, sameValueCollapsed, deleteAfterCollapse := false, false, false, false
@@ -76,8 +76,15 @@ func run(rt *rapid.T) {
 			if len(es) == 0 {
 				continue
 			}
-			m.Delete(gen.Pick(rt, es, "delkey").Key)
+			e := gen.Pick(rt, es, "delkey")
+			m.Delete(e.Key)
 			deleteAfterCollapse = deleteAfterCollapse || collapsedBelow
+			if gen.Chance(rt, 30, "readd") {
+				// the same entry comes back unchanged (same node hashes as before the delete)
+				m.Logf("(re-add identical)")
+				m.Rewrite(e)
+				readded = true
+			}
 		case k < 68:
 			key := gen.Pick(rt, pool, "absent")
 			if _, live := m.Model[string(key)]; !live {
@@ -91,6 +98,9 @@ func run(rt *rapid.T) {
 			}
 		case k < 84 && withDB && clean:
 			m.GC()
+			if gen.Chance(rt, 50, "gctwice") {
+				m.GC()
+			}
 		case k < 88 && withDB && clean:
 			m.Reload()
 			reloaded = true
@@ -126,6 +136,7 @@ func run(rt *rapid.T) {
 	add(sameValueCollapsed, "rewrite-same-value-collapsed")
 	add(reloaded, "reload")
 	add(reweighed, "weight-only-update")
+	add(readded, "delete-and-re-add-identical")
 	add(len(es) == 0, "ends-empty")
 	add(len(es) == 1, "ends-single-entry")
 	ev.Case(m.History(), nt, cls...)
